@@ -14,8 +14,9 @@ Abs(x) == IF x < 0 THEN -x ELSE x
 Max2(a, b) == IF a >= b THEN a ELSE b
 Min2(a, b) == IF a <= b THEN a ELSE b
 
-RECURSIVE Gcd(_, _)
-Gcd(a, b) == IF b = 0 THEN Abs(a) ELSE Gcd(b, a % b)
+RECURSIVE GcdN(_, _)
+GcdN(a, b) == IF b = 0 THEN a ELSE GcdN(b, a % b)
+Gcd(a, b) == GcdN(Abs(a), Abs(b))
 
 RECURSIVE SumSeq(_)
 SumSeq(s) == IF s = <<>> THEN 0 ELSE Head(s) + SumSeq(Tail(s))
@@ -119,6 +120,9 @@ MatInv(M) ==
       det == DetE(M.e, n)
   IN Mat(n, n, det,
          LAMBDA i, j : (IF (i + j) % 2 = 0 THEN 1 ELSE -1) * M.d * DetE(Minor(M.e, n, j, i), n - 1))
+
+\* the same inverse, avoiding the factorial expansion when M is orthogonal (then M^-1 = M^T)
+MatInvO(M) == IF M.r = M.c /\ MatMul(MatT(M), M) = IdentityMat(M.r) THEN MatT(M) ELSE MatInv(M)
 
 -----------------------------------------------------------------------------
 (* predicates *)
